@@ -158,6 +158,7 @@ type session struct {
 	conn      *websocket.Conn
 	wmu       sync.Mutex // client-side writes
 	srvCancel context.CancelFunc
+	cancelled bool
 	baseCtx   context.Context
 	unit      time.Duration // base wait
 }
@@ -375,7 +376,11 @@ func (s *session) startServer() {
 			ctx2, cancel := context.WithCancel(det)
 			s.mu.Lock()
 			s.srvCancel = cancel
+			was := s.cancelled
 			s.mu.Unlock()
+			if was { // the server-side cancel came before InitFunc ran: it is this context that it means
+				cancel()
+			}
 			return ctx2, nil, nil
 		}
 	case "reject":
@@ -702,6 +707,7 @@ func (s *session) srcCmd(inst, cmd string, wait time.Duration) bool {
 func (s *session) cancelServer() {
 	s.logEv(Event{E: "Cancel"}, nil)
 	s.mu.Lock()
+	s.cancelled = true // (a context InitFunc creates later is cancelled at once: see startServer)
 	c := s.srvCancel
 	s.mu.Unlock()
 	c()
